@@ -8,6 +8,11 @@ from multiprocessing import Pool
 from harness import common as C
 
 PROP = "C15"
+# 1: /repo contains the three fix: commits (has_same_tags by identity; non-operand tokens rejected; RecursionError ->
+#    ValueError): the model runs with fixed=true and the oracle demands the full statement, no known class accepted.
+# 0: the code before them: model with fixed=false, the classes C15-F1..F3 are recognised (if listed in known_findings).
+FIXED = int(os.environ.get("VERIF_C15_FIXED", "1"))
+MODEL_DEPTH = 1000      # nesting depth handed to the model (fixed=true); deeper inputs are not compared, see TRUSTED
 COQ_TARGETS = ["Props/C15.vo", "Extract/ExtractC15.vo"]
 TRUSTED = [
     "Model/Query.v + Model/QueryParse.v are hand transcriptions of query_expressions.py (every handle_expr), "
@@ -19,16 +24,18 @@ TRUSTED = [
     "from its own reading of HED8.3.0.xml (xml.etree), never from hed-python, so a wrong tag_terms/short_tag in "
     "hed-python shows up as a disagreement",
     "str.casefold and the token regex are modelled for ASCII text only; generated queries/annotations are ASCII",
-    "Python's recursion limit is not modelled (generated query nesting stays below 60 levels; the one deeper corpus "
-    "entry is the witness of C15-F3 and is excluded from the correspondence)",
+    "Python's actual recursion limit is not modelled: the model takes the available nesting depth as a parameter "
+    "(theorems hold for every depth); generated query nesting stays below 60 levels, and the compile outcome of "
+    "corpus entries nested 200+ levels is checked by the oracle only (ok or ValueError), not compared with the model",
 ]
 ASSUMPTIONS = [
     "annotations are built from schema-valid tags (str(tag) == short_tag); nesting depth <= 4; query depth <= 4",
     "the independent set-semantics evaluator, the metamorphic laws, repeated-search / purity / batch-interface "
     "checks run on the implementation only (testing)",
-    "C15_and_assoc_partial assumes no two distinct groups of the annotation compare equal (HedGroup.__eq__); "
-    "C15_sibling_order_partial covers queries built from search terms with || only; in general the clause is "
-    "refuted (C15-F1)",
+    "C15_sibling_order_invariant / _search assume the group identities of the annotation are pairwise different "
+    "(object identity; the harness numbers nodes in pre-order)",
+    "the *_prefix_* theorems are the record of the code before the fix: commits (fixed=false): refuted sibling "
+    "order and unbalanced-accepted witnesses, associativity under the no-equal-groups hypothesis",
 ]
 
 # ---------------------------------------------------------------- vocabulary (independent of hed-python)
@@ -128,8 +135,8 @@ def depth_of(children):
 
 
 def tag_eq(a, b):
-    """HedTag.__eq__ as documented: same short form or same original text ignoring case."""
-    return tag_info(a)[1] == tag_info(b)[1] or a.casefold() == b.casefold()
+    """HedTag.__eq__: same short form ignoring case."""
+    return tag_info(a)[1].casefold() == tag_info(b)[1].casefold()
 
 
 def node_equal(a, b):
@@ -539,7 +546,7 @@ def check_case(case, r, res, stats):
             "replay_case": {"tree": case["tree"], "stree": case["stree"], "qast": case["qast"]}}
 
     def rep(clause, name, detail, f1_ok=False):
-        fid = "C15-F1" if (f1_ok and f1_class(case, name)) else None
+        fid = "C15-F1" if (not FIXED and f1_ok and f1_class(case, name)) else None
         stats["oracle_failures"] += 1
         res.report(clause, dict(base, query=case["queries"].get(name, name)), detail, fid=fid)
     for clause, detail in r["problems"]:
@@ -597,10 +604,11 @@ def check_compile(q, got, res, stats):
     case = {"query": q}
     if got.startswith("exn:"):
         stats["oracle_failures"] += 1
-        res.report("compile-or-valueerror", case, got, fid="C15-F3" if deep_class(q, got) else None)
+        res.report("compile-or-valueerror", case, got, fid="C15-F3" if (not FIXED and deep_class(q, got)) else None)
     elif got == "ok" and not balanced(q):
         stats["oracle_failures"] += 1
-        res.report("unbalanced-rejected", case, "compiled", fid="C15-F2" if stray_closer_class(q) else None)
+        res.report("unbalanced-rejected", case, "compiled",
+                   fid="C15-F2" if (not FIXED and stray_closer_class(q)) else None)
 
 
 def run(tier, seed, res, model_ok=True, proof_ok=True):
@@ -641,9 +649,9 @@ def run(tier, seed, res, model_ok=True, proof_ok=True):
         for ci, c in enumerate(cases):
             mt, ms = model_tree(c["tree"]), model_tree(c["stree"])
             for name, q in c["queries"].items():
-                lines.append(C.to_sx(["S", C.cps(q), mt]))
+                lines.append(C.to_sx(["S", FIXED, MODEL_DEPTH, C.cps(q), mt]))
                 index.append((ci, name, "v"))
-                lines.append(C.to_sx(["S", C.cps(q), ms]))
+                lines.append(C.to_sx(["S", FIXED, MODEL_DEPTH, C.cps(q), ms]))
                 index.append((ci, name, "vs"))
         out = C.run_driver(exe, lines)
         pairs = len(lines)
@@ -661,12 +669,12 @@ def run(tier, seed, res, model_ok=True, proof_ok=True):
                 res.violation("correspondence", {"annotation": c["ann"] if which == "v" else c["shuf"],
                                                  "query": c["queries"][name]},
                               f"model={mv} implementation={got}", no_input=True)
-        outc = C.run_driver(exe, [C.to_sx(["C", C.cps(q)]) for q in soup])
+        outc = C.run_driver(exe, [C.to_sx(["C", FIXED, MODEL_DEPTH, C.cps(q)]) for q in soup])
         for q, m, got in zip(soup, outc, impl_c):
             mv = "ok" if m[0] == "ok" else (m[1] if m[0] == "exn" else "model-error:" + str(m))
             mb = (m[2] if m[0] == "ok" else m[2] if m[0] == "exn" else None)
-            if deep_class(q, got):
-                continue   # interpreter recursion limit, not modelled; reported by the oracle as C15-F3
+            if nesting(q) >= 200:
+                continue   # the interpreter's actual recursion limit is not modelled; outcome checked by the oracle
             if mv != got or (mb is not None and (mb == "1") != balanced(q)):
                 disagreements += 1
                 res.violation("correspondence", {"query": q}, f"model={m} implementation={got} balanced={balanced(q)}",
@@ -703,6 +711,7 @@ def run(tier, seed, res, model_ok=True, proof_ok=True):
         "correspondence_cases": pairs + (len(soup) if model_ok else 0),
         "oracle_failures": stats["oracle_failures"],
         "histogram": hist,
+        "fixed_semantics": bool(FIXED),
     }
 
 
